@@ -139,7 +139,7 @@ def build(spec):
             sim.add(m=spec.get("m0", 1.0))
         for i in range(n if spec.get("corner") != "empty" else 0):
             sim.add(m=10 ** rng.uniform(-7, -3.5), a=1.0 + 0.45 * i + rng.uniform(0, .1),
-                    e={"e_zero": 0.0, "e_near_one": 1.0 - 1e-9}.get(spec.get("corner"), rng.uniform(0, 0.1)),
+                    e={"e_zero": 0.0, "e_near_one": 1.0 - 1e-5}.get(spec.get("corner"), rng.uniform(0, 0.1)),
                     inc={"inc_zero": 0.0, "inc_pi": 3.141592653589793}.get(spec.get("corner"), rng.uniform(0, 0.05)), Omega=rng.uniform(0, 6), omega=rng.uniform(0, 6), f=rng.uniform(0, 6),
                     primary=sim.particles[0])
         if sim.N:
@@ -489,6 +489,7 @@ def mode_server(p):
         rec = {}
         order = []
         recbytes = {}
+        errlog = []
         last_sd = [-1]
         ncall = [0]
         def hb(sp):
@@ -523,7 +524,7 @@ def mode_server(p):
         t = 0.0
         for i in range(p["calls"]):
             t += tmax / p["calls"]
-            sim.integrate(t, exact_finish_time=eft)
+            safe_integrate(sim, t, eft, errlog)
             k = phys_key(sim)
             if k not in rec:
                 rec[k] = set(); order.append(k)
@@ -533,8 +534,8 @@ def mode_server(p):
             sim.stop_server()
         final = sha(canon(stream_of(sim)))
         if with_server:
-            return rec, order, got, errs, final, (particle_bits(sim), extra_state_bits(sim), float(sim.t).hex(), int(sim.steps_done))
-        return rec, order, got, errs, final, recbytes
+            return rec, order, got, errs, final + "|".join(errlog), (particle_bits(sim), extra_state_bits(sim), float(sim.t).hex(), int(sim.steps_done), "|".join(errlog))
+        return rec, order, got, errs, final + "|".join(errlog), recbytes
 
     # run 0: the UNOBSERVED trajectory: no server, no heartbeat, nothing ever serialises the simulation
     sim0 = build(spec)
@@ -551,10 +552,11 @@ def mode_server(p):
             st0["sd"] = int(s_.steps_done)
         sim0.heartbeat = hb0
     t0_ = 0.0
+    errlog0 = []
     for i in range(p["calls"]):
         t0_ += tmax / p["calls"]
-        sim0.integrate(t0_, exact_finish_time=eft)
-    unobs = (particle_bits(sim0), extra_state_bits(sim0), float(sim0.t).hex(), int(sim0.steps_done))
+        safe_integrate(sim0, t0_, eft, errlog0)
+    unobs = (particle_bits(sim0), extra_state_bits(sim0), float(sim0.t).hex(), int(sim0.steps_done), "|".join(errlog0))
     recA, orderA, _, _, finalA, bytesA = run(False)
     recB, orderB, got, errs, finalB, simB_state = run(True)
     res = {"boundaries": len(recA), "served": len(got), "client_errors": errs, "trajectory_equal": finalA == finalB and orderA == orderB,
@@ -585,12 +587,12 @@ def mode_server(p):
             cont_budget -= 1
             # continue the served snapshot and the snapshot the reference run (no server) took itself at the same boundary
             reattach(s, spec)
-            s.integrate(tmax, exact_finish_time=eft)
+            safe_integrate(s, tmax, eft, [])
             res["continued"] += 1
             kk = phys_key(s)
             if k in bytesA:
                 s0 = reattach(rebound.Simulation(bytesA[k]), spec)
-                s0.integrate(tmax, exact_finish_time=eft)
+                safe_integrate(s0, tmax, eft, [])
                 k0 = phys_key(s0)
             else:
                 k0 = orderA[-1]
